@@ -296,7 +296,14 @@ def observe(make, X, cell, restart_update=False):
         obs["update"] = r
         return obs
     r2 = attempt(lambda: sparse_value(det2.predict(R)))
-    obs["update"] = ("ok", (fitted_value(det2), int(len(det2._X)), r2))
+    # ... and an update whose chunk OVERLAPS the stored rows (the last two rows are sent again): labels decide, whatever the index start
+    over = None
+    if cell[0] in ("df", "df-blocks", "series") and n1 >= 3:
+        det3 = make()
+        tail3 = represent(X[n1 - 2:], cell, rows=slice(n1 - 2, n), total=n)
+        r3 = attempt(lambda: det3.fit(head).update(tail3))
+        over = (fitted_value(det3), int(len(det3._X)), attempt(lambda: sparse_value(det3.predict(R)))) if r3[0] == "ok" else ("err",) + tuple(r3[1:2])
+    obs["update"] = ("ok", (fitted_value(det2), int(len(det2._X)), r2, over))
     return obs
 
 
@@ -341,7 +348,17 @@ def compare(entry, ref, got):
         if not same_fitted(r[0], g[0]) or r[1] != g[1]:
             return "refit-differs"
         s = compare("predict", r[2], g[2])
-        return None if s is None else "predict-after-update:" + s
+        if s is not None:
+            return "predict-after-update:" + s
+        ro, go = (r[3] if len(r) > 3 else None), (g[3] if len(g) > 3 else None)
+        if ro is not None and go is not None and ro[0] != "err":
+            if go[0] == "err":
+                return f"overlapping-update-raises-{go[1] if len(go) > 1 else ''}"
+            if not same_fitted(ro[0], go[0]) or ro[1] != go[1]:
+                return "refit-after-overlapping-update-differs"
+            s = compare("predict", ro[2], go[2])
+            return None if s is None else "predict-after-overlapping-update:" + s
+        return None
     return None
 
 
@@ -533,7 +550,7 @@ def run(tier="quick", seed=0, repo="/repo"):
                     make, multivariate = detector_table(tier)[name]
                     grid_for(rec, failing_cells, name, make, big[1], (n, 1, "big"))
     bound = (f"{len(detector_table(tier))} detector configurations (7 classes) and 10 scorer configurations (8 classes) x n in {list(ns)} x "
-             f"p in (1,3) x {reps} integer-valued data set(s) x 64 cells (p=1) / 32 cells (p=3) x 6 entry points (detectors) / evaluate (scorers)")
+             f"p in (1,3) x {reps} integer-valued data set(s) x {len(cells(1))} cells (p=1) / {len(cells(3))} cells (p=3; containers df / series / ndarray incl. Fortran-ordered, strided view, one block per column; column labels incl. rotated after fit) x 6 entry points (detectors) / evaluate (scorers)")
     return rec.result(RULE, bound, exhaustive=True, failing_cells=failing_cells)
 
 
